@@ -30,7 +30,7 @@ func itoa(i int) string { return strconv.Itoa(i) }
 func propC19() *fw.Prop {
 	return &fw.Prop{
 		ID: "C19", Level: "exploration",
-		Rule:        "(i) history monitor: sequential request histories over {didOpen, didChange with 1–2 content changes, hover, definition, documentSymbol} are replayed through lsp.Handle on one server state; the model is map URI → latest text, every text version carries a unique marker (an unused variable named after the version, plus a version-dependent number of leading lines) so that a stale or foreign answer identifies the write it came from; after EVERY request the response — and for writes the publishDiagnostics notification captured from stdout — is compared (JSON; symbols and diagnostics as multisets) with what a fresh server that only saw didOpen(latest text of that URI) returns. Exhaustive for histories of length ≤ 3 (thorough ≤ 4) over 2 URIs × 4 texts (one of them broken), random histories up to length 200 over 4 URIs. (ii) navigation monitor: generated typed scripts under 3 layouts × EVERY cursor position: strictly inside a use of a declared variable ⇒ hover shows `$name: type` with exactly the use's range and definition returns exactly the range of the declaration's name; strictly inside the name of a built-in function in its proper context ⇒ hover names the function and its parameter types; the one-past-the-end position of such a token may answer either way; everywhere else ⇒ null. Distinct = histories in which a query follows ≥ 2 writes, and (construct, layout) classes of navigated uses.",
+		Rule:        "(i) history monitor: sequential request histories over {didOpen, didChange with 1–2 content changes, hover, definition, documentSymbol} are replayed through lsp.Handle on one server state; the model is map URI → latest text, every text version carries a unique marker (an unused variable named after the version, plus a version-dependent number of leading lines) so that a stale or foreign answer identifies the write it came from; after EVERY request the response — and for writes the publishDiagnostics notification captured from stdout — is compared (JSON; symbols and diagnostics as multisets) with what a fresh server that only saw didOpen(latest text of that URI) returns. Exhaustive for histories of length ≤ 3 (thorough ≤ 4) over 2 URIs × 4 texts (one of them broken), random histories up to length 200 over 4 URIs. (ii) navigation monitor: generated typed scripts under 3 layouts × EVERY cursor position: strictly inside a use of a declared variable ⇒ hover shows `$name: type` with exactly the use's range and definition returns exactly the range of the declaration's name; strictly inside the name of a built-in function in its proper context ⇒ hover names the function and its parameter types; the one-past-the-end position of such a token may answer either way; everywhere else ⇒ null. Distinct = histories in which a query follows ≥ 2 writes, and (construct, layout) classes of navigated uses. Added later: change notifications without content changes; a conforming client (ranged changes only if the server advertises incremental sync); every publishDiagnostics notification and documentSymbol answer is also compared with analysis.CheckSource of the latest text (not only with a fresh server); (iii) navigation in damaged documents (cut before a token, token deleted or doubled): every Variable node of the parser's own tree of the damaged text whose name has a complete declaration must hover and resolve.",
 		Assumptions: []string{"harness generators, printer and name model; Go runtime; observation at lsp.Handle's return value and the bytes it writes to stdout", "RunServer is a single sequential loop, so sequential histories are the complete space of histories"},
 		Require:     []string{"histories_replayed", "queries_after_two_or_more_writes", "notifications_compared", "positions_navigated", "variable_uses_navigated", "builtin_names_navigated", "exhaustive_spaces_completed"},
 		Run:         runC19,
